@@ -479,7 +479,11 @@ def qr_iteration_arithmetic(ctx, rep, rule: str) -> None:
     _report(rep, rule, "qr-iteration-recurrence", fi.loc(), 1, bad, "Q <- qr(A @ Q).Q; error = ||Q_prev - Q|| / ||Q_prev|| (relative change); result = Q[:, argsort(einsum('ij, ik, kj -> j', Q, A, Q))]")
     # zero-estimate fallback
     first = next((n for n in fi.node.body if isinstance(n, ast.If)), None)
-    ok = first is not None and " ".join(ast.unparse(first.test).split()) == "not eigenvectors_estimate.any()" and len(first.body) == 1 and isinstance(first.body[0], ast.Return) and "matrix_eigenvalue_decomposition(A)[1]" in ast.unparse(first.body[0])
+    ok = False
+    if first is not None and " ".join(ast.unparse(first.test).split()) == "not eigenvectors_estimate.any()":
+        call, k = A.returned_component(first.body)
+        dec = repo.func("matrix_functions:matrix_eigenvalue_decomposition")
+        ok = call is not None and k == 1 and A.callee_name(repo, fi.module, call) == "matrix_functions.matrix_eigenvalue_decomposition" and ast.unparse(A.arg_of(call, dec, "A") or ast.Constant(value=None)) == "A"
     rep.ob(rule, "qr-zero-estimate-falls-back-to-eigh", ok, fi.loc(first) if first is not None else fi.loc(), "a zero estimate falls back to the eigendecomposition's eigenvectors")
 
 
